@@ -857,81 +857,78 @@ def _accumulation_core(ctx):
     ci = prog.cls(DC + "DamageCalculatorPRAM")
     f = inlined(prog, prog.lookup_method(ci, "lifetime_n_times_load_sequence"))
     from ..astutil import inline_single_defs
-    sums = {}
-    sum_sites = {}
+    # decided on the symbolic value the property returns (helpers followed, locals resolved): where(<early failure>, 0, x + 1)
+    # with x = (1 - D1)/D2, D_r = <rows of run r>["D"] ... .sum() possibly passed through a fill-up / conversion wrapper
+    from ..absint import Interp, TermDomain, term_walk, term_to_nf
+    f0 = prog.lookup_method(ci, "lifetime_n_times_load_sequence")
+    val = Interp(prog, TermDomain(), max_depth=3).run(f0, [])
 
-    def full(st_):
-        return inline_single_defs(f.node, st_.value)
-    for st in walk_function(f.node):
-        if isinstance(st, ast.Assign) and isinstance(st.targets[0], ast.Name):
-            v_ = full(st)
-            # the pass sum, possibly wrapped in a helper that fills missing points: <...>.sum() somewhere in the value
-            inner = [c_ for c_ in calls_in(v_) if isinstance(c_.func, ast.Attribute) and c_.func.attr == "sum"]
-            if (isinstance(v_, ast.Call) and isinstance(v_.func, ast.Attribute) and v_.func.attr == "sum") or \
-                    (inner and isinstance(st.value, ast.Call) and is_self_attr(st.value.func)):
-                tgt = v_ if not inner or (isinstance(v_.func, ast.Attribute) and v_.func.attr == "sum") else inner[0]
-                fl = _run_filter(tgt)
-                if fl:
-                    sum_sites[st.targets[0].id] = (st, tgt, fl)
-                    if len(fl) == 1 and '"D"' in norm_text(tgt).replace("'", '"'):
-                        sums[st.targets[0].id] = next(iter(fl))
-    # a local that is only the filled-up version of a pass sum (x = fill(x, 0)) keeps its pass
-    for name, (st, tgt, fl) in sum_sites.items():
-        if name not in sums:
-            ctx.violated(f, st, "the damage sum of pass %s is %s, not the sum of the per-hysteresis damage column D: half "
-                         "hystereses of that pass are not counted with 1/2 as everywhere else" %
-                         (sorted(fl), norm_text(tgt)[:120]), text="pass sum not from D")
-    if set(sums.values()) != {1, 2}:
-        if any(n_ not in sums for n_ in sum_sites):
-            return
-        raise AnalysisError("lifetime_n_times_load_sequence: damage sums of pass 1/2 or the x formula not found")
-    d1 = next(k for k, v in sums.items() if v == 1)
-    d2 = next(k for k, v in sums.items() if v == 2)
-
-    def atom(e):
-        if isinstance(e, ast.Name) and e.id in sums:
-            return "D1" if sums[e.id] == 1 else "D2"
+    def pass_of(t):
+        """('D'|'X', run) if the term is one damage / other sum over the rows of exactly one run, else None"""
+        runs, has_sum, has_d = set(), False, False
+        for x_ in term_walk(t):
+            if isinstance(x_, tuple) and x_:
+                if x_[0] == "cmp" and x_[1] == "eq" and len(x_) == 4:
+                    for u_, w_ in ((x_[2], x_[3]), (x_[3], x_[2])):
+                        if isinstance(w_, tuple) and w_[0] == "c" and isinstance(w_[1], int) and \
+                                any(y_ == ("c", "run_index") for y_ in term_walk(u_)):
+                            runs.add(w_[1])
+                if x_[0] == "m" and len(x_) > 2 and x_[2] == "sum":
+                    has_sum = True
+                if x_ == ("c", "D"):
+                    has_d = True
+        if has_sum and len(runs) == 1:
+            return ("D" if has_d else "X"), next(iter(runs))
         return None
-    # x: the quantity the result adds one to
-    res = [c for c in calls_in(f.node) if call_name(c) == "np.where" and len(c.args) == 3 and
-           is_self_attr(c.args[0].left if isinstance(c.args[0], ast.Compare) else None)]
-    xname = None
-    if res and isinstance(res[0].args[2], ast.BinOp) and isinstance(res[0].args[2].op, ast.Add):
-        for side, other in ((res[0].args[2].left, res[0].args[2].right), (res[0].args[2].right, res[0].args[2].left)):
-            if isinstance(side, ast.Name) and const_value(other) == 1:
-                xname = side.id
-    xdefs = [st for st in walk_function(f.node) if isinstance(st, ast.Assign) and isinstance(st.targets[0], ast.Name) and
-             st.targets[0].id == xname]
-    if len(xdefs) != 1:
-        raise AnalysisError("lifetime_n_times_load_sequence: damage sums of pass 1/2 or the x formula not found")
-    xs = xdefs
-    xv = xs[0].value
-    while isinstance(xv, ast.Call) and call_name(xv) in ("np.asarray", "np.array") and xv.args:
-        xv = xv.args[0]
+
+    def atom(t):
+        if isinstance(t, tuple) and t and t[0] in ("m", "call", "at", "attr", "series") and not (t[0] == "call" and t[1] == "np.where"):
+            ps = pass_of(t)
+            if ps:
+                return "%s%d" % ps
+        return None
+
+    def strip(t):
+        while isinstance(t, tuple) and t and ((t[0] == "m" and t[2] in ("squeeze", "to_numpy", "copy")) or
+                                              (t[0] == "call" and t[1] in ("np.asarray", "np.array") and t[2])):
+            t = t[1] if t[0] == "m" else t[2][0]
+        return t
+    val = strip(val)
+    sel = val if isinstance(val, tuple) and val and val[0] == "where" else None
+    if sel is None:
+        raise AnalysisError("lifetime_n_times_load_sequence: the early-failure selection of the result was not found")
+    regular = strip(sel[3] if sel[2] == ("c", 0) else sel[2])      # ('where', mask, new, old): the value where the mask is false
     want = to_nf(parse_expr("(1 - D1) / D2"))
-    try:
-        if isinstance(xv, ast.Call) and call_name(xv) == "np.where" and len(xv.args) == 3:
-            gen = to_nf(xv.args[2], atom=atom)
-            spec = to_nf(xv.args[1], atom=atom)
-            cond_ok = isinstance(xv.args[0], ast.Compare) and const_value(xv.args[0].comparators[0]) == 0 and \
-                isinstance(xv.args[0].left, ast.Name) and sums.get(xv.args[0].left.id) == 1
-            ok = gen == want and spec == _subst_atom(want, "D1", RF.const(0)) and cond_ok
+    xt = None
+    if isinstance(regular, tuple) and regular[0] == "op" and regular[1] == "+":
+        for side, other in ((regular[2], regular[3]), (regular[3], regular[2])):
+            if other in (("c", 1), ("c", 1.0)):
+                xt = strip(side)
+    if xt is None:
+        ctx.violated(f0, f0.node, "repetitions of the sequence are not x + 1", text="x plus one")
+    else:
+        ctx.holds(f0, f0.node, "repetitions of the sequence = x + 1 (pass 1 counts once)")
+        bad = [atom(x_) for x_ in term_walk(xt) if atom(x_) and atom(x_).startswith("X")]
+        try:
+            if bad:
+                ok, why = False, "the damage sum of pass %s is not the sum of the per-hysteresis damage column D: half hystereses of " \
+                    "that pass are not counted with 1/2 as everywhere else" % bad[0][1:]
+            elif isinstance(xt, tuple) and xt[0] == "where" and len(xt) == 4:
+                # where(D1 == 0, 1/D2, (1 - D1)/D2)
+                cnd, spec_t, gen_t = xt[1], xt[2], xt[3]
+                cond_ok = isinstance(cnd, tuple) and cnd[0] == "cmp" and cnd[1] == "eq" and \
+                    ((cnd[2] in (("c", 0), ("c", 0.0)) and atom(cnd[3]) == "D1") or (cnd[3] in (("c", 0), ("c", 0.0)) and atom(cnd[2]) == "D1"))
+                ok = cond_ok and term_to_nf(gen_t, atom) == want and term_to_nf(spec_t, atom) == _subst_atom(want, "D1", RF.const(0))
+                why = "the number of repetitions of pass 2 is not (1 - D_1)/D_2 (with its special case for D_1 = 0)"
+            else:
+                ok = term_to_nf(xt, atom) == want
+                why = "the number of repetitions of pass 2 is not (1 - D_1)/D_2"
+        except NFUnsupported:
+            raise AnalysisError("lifetime_n_times_load_sequence: damage sums of pass 1/2 or the x formula not found")
+        if ok:
+            ctx.holds(f0, f0.node, "x = (1 - D_1)/D_2 with D_1 = damage of pass 1, D_2 = damage of pass 2 (special case D_1 = 0 consistent)")
         else:
-            ok = to_nf(xv, atom=atom) == want            # the case D_1 = 0 is the same formula
-    except NFUnsupported:
-        ok = False
-    if ok:
-        ctx.holds(f, xs[0], "x = (1 - D_1)/D_2 with D_1 = damage of pass 1, D_2 = damage of pass 2 (special case D_1 = 0 consistent)")
-    else:
-        ctx.violated(f, xs[0], "the number of repetitions of pass 2 is %s; expected (1 - D_1)/D_2" % norm_text(xs[0].value), text="x formula")
-    try:
-        ok = bool(res) and to_nf(res[0].args[2]) == to_nf(parse_expr("%s + 1" % xname))
-    except NFUnsupported:
-        ok = False
-    if ok:
-        ctx.holds(f, res[0], "repetitions of the sequence = x + 1 (pass 1 counts once)")
-    else:
-        ctx.violated(f, res[0] if res else f.node, "repetitions of the sequence are not x + 1", text="x plus one")
+            ctx.violated(f0, f0.node, why + "; expected (1 - D_1)/D_2", text="x formula")
     g = prog.lookup_method(ci, "lifetime_n_cycles")
     w = [c for c in calls_in(g.node) if call_name(c) == "np.where"][0]
     per = [n for n in ast.walk(w.args[2]) if is_self_attr(n)]
